@@ -148,7 +148,10 @@ theorem flipsAt_eq (rate k : Nat) (hk : k < 2 ^ 24) : flipsAt rate k = decide (k
   unfold flipsAt cutoff
   cases hd : F32.decode rate with
   | nan => simp [F32.Val.lt]
-  | inf neg => cases neg <;> simp [F32.Val.lt] <;> omega
+  | inf neg =>
+    cases neg
+    · simp [F32.Val.lt]; omega
+    · simp [F32.Val.lt]
   | fin s =>
     simp only [F32.Val.lt, F32.gridScaled]
     by_cases hs : s ≤ 0
